@@ -24,9 +24,9 @@ def _getter_returns(ctx, K, name):
     if not m or m[1] != "prop" or m[2].getter is None:
         return [], None
     g = m[2].getter
-    v = ctx.view(g, consts=False)  # names of constants are kept: they are resolved to their home assignment
+    v = _frame(ctx, g)  # names of constants are kept: they are resolved to their home assignment
     L = Locals(v.node)
-    return [L.expand(r.value) for r in ast.walk(v.node) if isinstance(r, ast.Return) and r.value is not None], g
+    return [L.expand(r.value) for r in ast.walk(v.node) if isinstance(r, ast.Return) and r.value is not None], v
 
 
 def _is_self_attr(fn, expr, attr) -> bool:
@@ -39,6 +39,8 @@ def _literals_in(p, mod, fn_node, expr):
     bound = {x.id for x in ast.walk(fn_node) if isinstance(x, ast.Name) and isinstance(x.ctx, ast.Store)} | {a.arg for a in ast.walk(fn_node) if isinstance(a, ast.arg)}
 
     def lit(v):
+        if isinstance(v, ast.Call) and getattr(v.func, "id", None) in ("frozenset", "set", "tuple", "list") and len(v.args) == 1 and not v.keywords:
+            return lit(v.args[0]) and not isinstance(v.args[0], ast.Constant)  # frozenset((0, 1)): a literal collection all the same
         return isinstance(v, ast.Constant) or (isinstance(v, (ast.Set, ast.List, ast.Tuple)) and all(isinstance(e, ast.Constant) for e in v.elts))
 
     class R(ast.NodeTransformer):
@@ -52,15 +54,16 @@ def _literals_in(p, mod, fn_node, expr):
     return R().visit(copy.deepcopy(expr))
 
 
-def _raise_guards(p, mod, fn_node) -> list:
-    """For every `raise` of the function: the conditions (temporaries expanded, hoisted literals back in place) of the tests that dominate it."""
-    g = CFG(fn_node)
+def _raise_guards(ctx, fn) -> list:
+    """For every `raise` of the function: the conditions (temporaries expanded, hoisted literals back in place, predicates drawn from
+    tables looked into) of the tests that dominate it."""
+    g = CFG(fn.node)
     dom = dominators(g)
-    L = Locals(fn_node)
+    L = Locals(fn.node)
     out = []
     for n in g.nodes:
         if n.kind == "raise" and n in dom:
-            out.append([_literals_in(p, mod, fn_node, L.expand(t.ast)) for t in dom[n] if t.kind == "test" and t is not n])
+            out.append([_literals_in(ctx.p, fn.module, fn.node, m) for t in dom[n] if t.kind == "test" and t is not n for m in _test_meanings(ctx, fn, L, t.ast)])
     return out
 
 
@@ -106,13 +109,13 @@ def rule_ndv(ctx) -> RuleResult:
     for cname, const in (("FloatData", "FLOAT_NDV"), ("IntegerData", "INTEGER_NDV")):
         K = p.cls(cname)
         rets, g = _getter_returns(ctx, K, "ndv")
-        ok = bool(rets) and all(home.which(g.module, v) == const for v in rets)
+        ok = bool(rets) and all(home.which(_mods(g), v) == const for v in rets)
         res.inst(f"{cname}.ndv returns shared.{const}", ok=bool(ok))
         if not ok:
             res.find(cname, "ndv", f"ndv returns {unparse(rets[0]) if rets else ''}", g.where if g else K.where, f"{cname} writes gaps with a code other than shared.{const}")
     K = p.cls("IntegerData")
     rets, g = _getter_returns(ctx, K, "nan_value")
-    ok = bool(rets) and all(_is_self_attr(g, v, "ndv") or home.which(g.module, v) == "INTEGER_NDV" for v in rets)
+    ok = bool(rets) and all(_is_self_attr(g, v, "ndv") or home.which(_mods(g), v) == "INTEGER_NDV" for v in rets)
     res.inst(f"IntegerData.nan_value -> {[unparse(v) for v in rets]}", ok=ok)
     if not ok:
         res.find("IntegerData", "nan_value", f"nan_value returns {unparse(rets[0]) if rets else ''}", g.where if g else K.where, "padding uses a different code than the stored no-data value")
@@ -128,8 +131,8 @@ def rule_ndv(ctx) -> RuleResult:
         res.find("BooleanData", "ndv", f"ndv returns {unparse(rets[0]) if rets else ''}", g.where if g else "", "boolean gaps are not stored as 0")
     # reader / writer use the shared constant (wherever the comparison / substitution lives: private helpers are expanded)
     for spec in ("H5Reader.fetch_values", "H5Reader.fetch_concatenated_values", "H5Writer.update_concatenated_field"):
-        fn = ctx.view(spec, consts=False)
-        names = set().union(*[home.mentioned(f.module, f.node) for f in _with_private_callees(ctx, fn)])
+        fn = _frame(ctx, spec)
+        names = set().union(*[home.mentioned(_mods(f), f.node) for f in _with_private_callees(ctx, fn)])
         ok = names == {"FLOAT_NDV"}
         res.inst(f"{spec} uses shared.FLOAT_NDV ({sorted(names)})", ok=bool(ok))
         if not ok:
@@ -171,13 +174,13 @@ def rule_ndv(ctx) -> RuleResult:
         raise AnalysisError("anchor ReferenceValueMap.map[setter] not found")
     st = rvm.props["map"].setter
     sv = ctx.view(st)
-    nodes = [sv.node]
+    frames = [sv]
     vk = rvm.methods.get("_validate_key_value")
     if vk is not None:
-        nodes.append(ctx.view(vk).node)
+        frames.append(ctx.view(vk))
     toks = set()
-    for node in nodes:
-        for tests in _raise_guards(p, st.module, node):
+    for fr in frames:
+        for tests in _raise_guards(ctx, fr):
             if any(_is_int_const(s, 0) for t in tests for s in _cmp_sides(t, (ast.Eq, ast.NotEq, ast.Is, ast.IsNot))):
                 for t in tests:
                     for s in _cmp_sides(t, (ast.Eq, ast.NotEq, ast.In, ast.NotIn)):
@@ -202,68 +205,224 @@ def rule_ndv(ctx) -> RuleResult:
     return res
 
 
-def _private_callee(p, fn, call):
-    """The package function behind `cls._h(..)` / `self._h(..)` / `Class._h(..)` / `_h(..)` — for private helpers the normaliser had to
-    leave as calls (e.g. because they forward **kwargs)."""
-    f = call.func
-    name = f.attr if isinstance(f, ast.Attribute) else getattr(f, "id", None)
-    if not name or not name.startswith("_") or name.startswith("__"):
+def _rule_words() -> set:
+    try:
+        from ..normalize import rule_named_identifiers
+    except ImportError:  # older normaliser: private helpers only
+        return _Everything()
+    return rule_named_identifiers()
+
+
+class _Everything(set):
+    def __contains__(self, item):
+        return True
+
+
+def _locally_bound(fn_node) -> set:
+    return {x.id for x in ast.walk(fn_node) if isinstance(x, ast.Name) and isinstance(x.ctx, ast.Store)} | {a.arg for a in ast.walk(fn_node) if isinstance(a, ast.arg)}
+
+
+def _resolve_ref(p, fn, node, bound=()):
+    """The package function a name / attribute denotes: `cls.h` / `self.h` / `Class.h` / `h` — private helpers, and public ones no rule
+    names (the normaliser's own policy).  Used for helpers the normaliser had to leave as calls (they forward **kwargs, yield, return from
+    inside a loop) and for functions that are only mentioned: entries of a dispatch table, a list of pipeline steps, a bound method."""
+    name = node.attr if isinstance(node, ast.Attribute) else getattr(node, "id", None)
+    if not name or name.startswith("__"):
         return None
-    if isinstance(f, ast.Attribute) and isinstance(f.value, ast.Name):
+    if not name.startswith("_") and name in _rule_words():
+        return None
+    if isinstance(node, ast.Attribute) and isinstance(node.value, ast.Name):
         owner = None
-        if fn.cls is not None and f.value.id in ("self", "cls", fn.self_name):
+        if fn.cls is not None and node.value.id in ("self", "cls", fn.self_name):
             owner = fn.cls
-        else:
-            r = p.resolve_name(fn.module, f.value.id)
+        elif node.value.id not in bound:
+            r = p.resolve_name(fn.module, node.value.id)
             owner = r[1] if r and r[0] == "class" else None
         m = owner.lookup(name) if owner is not None else None
         return m[2] if m and m[1] == "method" else None
-    if isinstance(f, ast.Name):
+    if isinstance(node, ast.Name) and name not in bound:
         r = p.resolve_name(fn.module, name)
-        return r[1] if r and r[0] == "func" else None
+        if r and r[0] == "func":
+            return r[1]
+        if getattr(fn, "c08_class_scope", False) and fn.cls is not None:  # a table written in a class body names the functions defined above it
+            m = fn.cls.lookup(name)
+            return m[2] if m and m[1] == "method" else None
     return None
 
 
-def _with_private_callees(ctx, v, _depth=0) -> list:
-    """The function (private helpers expanded) and the private helpers that had to stay calls, transitively."""
-    out = [v]
-    if _depth < 2:
-        for c in ast.walk(v.node):
-            callee = _private_callee(ctx.p, v, c) if isinstance(c, ast.Call) else None
-            if callee is not None and callee.node is not v.node:
-                for f in _with_private_callees(ctx, ctx.view(callee, consts=False), _depth + 1):
-                    if all(f.node is not o.node for o in out):
-                        out.append(f)
+def _table_of(p, fn, node, bound=()):
+    """(resolution context, display) when a name / attribute denotes a module- or class-level table (dict / list / tuple / set display)."""
+    from ..model import FuncInfo
+
+    def display(v):
+        return isinstance(v, (ast.Dict, ast.List, ast.Tuple, ast.Set)) or (isinstance(v, ast.Call) and getattr(v.func, "id", None) in ("dict", "tuple", "list", "frozenset", "MappingProxyType"))
+
+    if isinstance(node, ast.Name) and node.id not in bound:
+        r = p.resolve_name(fn.module, node.id)
+        if r and r[0] == "assign" and display(r[1][1]):
+            return FuncInfo(name=fn.name, module=r[1][0], node=fn.node, cls=None, kind="function"), r[1][1]
+    if isinstance(node, ast.Attribute) and isinstance(node.value, ast.Name):
+        owner = None
+        if fn.cls is not None and node.value.id in ("self", "cls", fn.self_name):
+            owner = fn.cls
+        elif node.value.id not in bound:
+            r = p.resolve_name(fn.module, node.value.id)
+            owner = r[1] if r and r[0] == "class" else None
+        if owner is not None:
+            for k in owner.mro:
+                if not isinstance(k, str) and node.attr in k.class_assigns:
+                    v = k.class_assigns[node.attr][0]
+                    if v is not None and display(v) and k.module is not None:
+                        ctx_fn = FuncInfo(name=fn.name, module=k.module, node=fn.node, cls=k, kind="classmethod")
+                        ctx_fn.c08_class_scope = True
+                        return ctx_fn, v
+                    return None
+    return None
+
+
+def _package_refs(p, fn, node=None, _depth=0) -> list:
+    """(node, function, the call it is the callee of | None) for every package function the code calls or mentions, tables looked into."""
+    node = fn.node if node is None else node
+    bound = _locally_bound(fn.node) if node is fn.node or _depth == 0 else set()
+    callee_of = {id(c.func): c for c in ast.walk(node) if isinstance(c, ast.Call)}
+    out = []
+    for x in ast.walk(node):
+        if isinstance(x, ast.Call) and getattr(x.func, "id", None) == "getattr" and len(x.args) >= 2 and isinstance(x.args[0], ast.Name):
+            # getattr(cls, <name>): the methods whose names the key expression can take (string literals, locals bound to them, tables of them)
+            L = Locals(fn.node)
+            words, todo = set(), [x.args[1]]
+            for _round in range(4):
+                nxt = []
+                for e in todo:
+                    for y in ast.walk(e):
+                        if isinstance(y, ast.Constant) and isinstance(y.value, str):
+                            words.add(y.value)
+                        elif isinstance(y, ast.Name) and y.id in L.defs and y.id not in L.params:
+                            nxt += L.values(y.id)
+                        elif isinstance(y, (ast.Name, ast.Attribute)) and _depth < 2:
+                            t = _table_of(p, fn, y, bound)
+                            if t is not None:
+                                nxt.append(t[1])
+                todo = nxt
+            for w in sorted(words):
+                f = _resolve_ref(p, fn, ast.Attribute(value=x.args[0], attr=w, ctx=ast.Load()), bound)
+                if f is not None and f.node is not fn.node:
+                    out.append((x, f, None))
+            continue
+        if not (isinstance(x, (ast.Name, ast.Attribute)) and isinstance(getattr(x, "ctx", None), ast.Load)):
+            continue
+        f = _resolve_ref(p, fn, x, bound)
+        if f is not None:
+            if f.node is not fn.node:
+                out.append((x, f, callee_of.get(id(x))))
+        elif _depth < 2:
+            t = _table_of(p, fn, x, bound)
+            if t is not None:
+                out += [(x, f2, None) for _n, f2, _c in _package_refs(p, t[0], t[1], _depth + 1)]
     return out
 
 
-def _dataset_sinks(ctx, v, _depth=0) -> list:
-    """(function to look at, call in it, expression stored as the dataset's data, dtype given explicitly) for every h5py
-    `create_dataset(.., data=..)` the function performs itself or in its expanded private helpers.  For a private helper the normaliser
-    left as a call: the caller's argument when the helper stores a parameter as it came, the helper's own frame otherwise."""
+def _mods(fr) -> list:
+    return getattr(fr, "c08_mods", None) or [fr.module]
+
+
+def _frame(ctx, spec_or_fn, consts=False):
+    """The normalised view of a function, with the modules its (expanded) code may come from: a name in expanded helper code is resolved
+    where the helper was written."""
+    raw = ctx.p.func(spec_or_fn) if isinstance(spec_or_fn, str) else spec_or_fn
+    v = ctx.view(raw, consts=consts)
+    if getattr(v, "c08_mods", None) is None:
+        mods, seen, todo = [raw.module], {id(raw.node)}, [(raw, 0)]
+        while todo:
+            f, d = todo.pop()
+            if d >= 3:
+                continue
+            for _n, g, _c in _package_refs(ctx.p, f):
+                if id(g.node) not in seen:
+                    seen.add(id(g.node))
+                    if g.module not in mods:
+                        mods.append(g.module)
+                    todo.append((g, d + 1))
+        v.c08_mods = mods
+    return v
+
+
+def _with_private_callees(ctx, v, _depth=0) -> list:
+    """The function (helpers expanded) and the helpers that stayed calls or are only mentioned (dispatch tables, pipeline steps), transitively."""
+    out = [v]
+    if _depth < 2:
+        for _n, callee, _c in _package_refs(ctx.p, v):
+            for f in _with_private_callees(ctx, _frame(ctx, callee), _depth + 1):
+                if all(f.node is not o.node for o in out):
+                    out.append(f)
+    return out
+
+
+def _dataset_sinks(ctx, v, _depth=0, _stack=()) -> list:
+    """(function to look at, call in it, expression stored as the dataset's data, explicit dtype / shape) for every h5py
+    `create_dataset(.., data=..)` the function performs itself or in its expanded helpers.  For a helper that stayed a call: the caller's
+    argument when the helper stores a parameter as it came, the helper's own frame otherwise — and the helper's own frame too when it is
+    only reached through a table or as a bound method."""
     out = []
     for c in ast.walk(v.node):
-        if not isinstance(c, ast.Call):
+        if isinstance(c, ast.Call) and isinstance(c.func, ast.Attribute) and c.func.attr == "create_dataset" and any(k.arg == "data" for k in c.keywords):
+            out.append((v, c, next(k.value for k in c.keywords if k.arg == "data"), any(k.arg in ("dtype", "shape") for k in c.keywords)))
+    if _depth >= 2:
+        return out
+    done = set()
+    for _n, callee, c in _package_refs(ctx.p, v):
+        if id(callee.node) in _stack or (id(callee.node), id(c)) in done:
             continue
-        if isinstance(c.func, ast.Attribute) and c.func.attr == "create_dataset" and any(k.arg == "data" for k in c.keywords):
-            out.append((v, c, next(k.value for k in c.keywords if k.arg == "data"), any(k.arg == "dtype" for k in c.keywords)))
+        done.add((id(callee.node), id(c)))
+        cv = _frame(ctx, callee)
+        inner = _dataset_sinks(ctx, cv, _depth + 1, _stack + (id(v.node),))
+        if c is None:
+            out += [s for s in inner if all(s[1] is not o[1] for o in out)]
             continue
-        callee = _private_callee(ctx.p, v, c) if _depth < 2 else None
-        if callee is None or callee.node is v.node:
-            continue
-        cv = ctx.view(callee, consts=False)
         params = list(cv.params)
         if callee.kind in ("method", "classmethod") and isinstance(c.func, ast.Attribute):
             params = params[1:]
         bound = dict(zip(params, c.args))
         bound.update({k.arg: k.value for k in c.keywords if k.arg})
         CL = Locals(cv.node)
-        for frame, c2, data, typed in _dataset_sinks(ctx, cv, _depth + 1):
+        for frame, c2, data, typed in inner:
             d = CL.expand(data) if frame is cv else None
             if isinstance(d, ast.Name) and d.id in bound and not CL.defs.get(d.id) and d.id not in CL.opaque:
                 out.append((v, c, bound[d.id], typed))
-            else:
+            elif all(c2 is not o[1] for o in out):
                 out.append((frame, c2, data, typed))
+    return out
+
+
+def _test_meanings(ctx, fn, L, test, _depth=0) -> list:
+    """What a condition decides, beyond its own text: when it calls a package function that stayed a call, the expressions that function
+    returns; when it calls a name drawn from a table it loops over (`for check, error in CHECKS: if check(values): raise error`), the
+    functions and lambdas of that table.  The condition itself (temporaries expanded) comes first."""
+    out = [L.expand(test)]
+    if _depth >= 2:
+        return out
+    p = ctx.p
+    sources = [out[0]]
+    used = {x.id for x in ast.walk(test) if isinstance(x, ast.Name)}
+    for loop in ast.walk(fn.node):
+        if isinstance(loop, (ast.For, ast.comprehension)) and used & {x.id for x in ast.walk(loop.target) if isinstance(x, ast.Name)}:
+            sources.append(L.expand(loop.iter))
+    bound = _locally_bound(fn.node)
+    for src in sources:
+        tables = [src]
+        for y in ast.walk(src):
+            if isinstance(y, (ast.Name, ast.Attribute)):
+                t = _table_of(p, fn, y, bound)
+                if t is not None:
+                    tables.append(t[1])
+        for t in tables:
+            out += [lam.body for lam in ast.walk(t) if isinstance(lam, ast.Lambda)]
+        for _n, callee, _c in _package_refs(p, fn, src):
+            cv = _frame(ctx, callee, consts=True)
+            CL = Locals(cv.node)
+            for r in ast.walk(cv.node):
+                if isinstance(r, (ast.Return, ast.Yield, ast.YieldFrom)) and r.value is not None:  # a generator of verdicts: what it yields
+                    out += _test_meanings(ctx, cv, CL, r.value, _depth + 1)
     return out
 
 
@@ -383,7 +542,7 @@ def rule_ndvmap(ctx) -> RuleResult:
     if shared is None:
         raise AnalysisError("anchor module geoh5py.shared not found")
     home = NdvHome(p, shared)
-    wd = ctx.view("H5Writer.write_data_values", consts=False)
+    wd = _frame(ctx, "H5Writer.write_data_values")
     # the numeric branch: the dataset(s) created without an explicit (string) dtype — the text branches name dtype= / shape=(1,)
     numeric = [(fr, c, d) for fr, c, d, typed in _dataset_sinks(ctx, wd) if not typed]
     if not numeric:
@@ -392,7 +551,7 @@ def rule_ndvmap(ctx) -> RuleResult:
         L = Locals(fr.node)
         subst, inline = _nan_substitutions(L, fr, data)
         vals = [L.expand(v) for _s, v in subst] + ([L.expand(inline)] if inline is not None else [])
-        ok = bool(vals) and all(_is_ndv_source(home, fr.module, v) for v in vals)
+        ok = bool(vals) and all(_is_ndv_source(home, _mods(fr), v) for v in vals)
         res.inst(f"write_data_values: <array>[isnan] = {[unparse(v) for v in vals]} before create_dataset", nontrivial=True, ok=ok)
         if not ok:
             res.find("H5Writer", "write_data_values", "raw NaN reaches create_dataset on the numeric branch", f"{fr.module.relpath}:{c.lineno}",
@@ -406,11 +565,11 @@ def rule_ndvmap(ctx) -> RuleResult:
             dnodes = _cfg_nodes_of(g, c)
             if not dnodes:
                 raise AnalysisError("H5Writer.write_data_values: numeric create_dataset not on the control-flow graph")
-            seen = _reach_assuming(g, lambda t: _assumed(home, fr.module, L, names, t), avoid=snodes)
+            seen = _reach_assuming(g, lambda t: _assumed(home, _mods(fr), L, names, t), avoid=snodes)
             if any(n in seen for n in dnodes):
                 res.find("H5Writer", "write_data_values", "NaN substitution can be skipped on the numeric branch", f"{fr.module.relpath}:{subst[0][0].lineno}",
                          "the substitution is skipped for some numeric data")
-    uc = ctx.view("H5Writer.update_concatenated_field", consts=False)
+    uc = _frame(ctx, "H5Writer.update_concatenated_field")
     # the array that reaches the dataset (whatever it is called, wherever the conversion lives); every local if the creation is out of sight
     sinks = [(fr, d) for fr, _c, d, typed in _dataset_sinks(ctx, uc) if not typed]
     subs = []
@@ -418,23 +577,23 @@ def rule_ndvmap(ctx) -> RuleResult:
         L = Locals(fr.node)
         subst, inline = _nan_substitutions(L, fr, d)
         subs += [(fr, L.expand(v)) for _s, v in subst] + ([(fr, L.expand(inline))] if inline is not None else [])
-    ok = bool(subs) and all(home.which(fr.module, s) == "FLOAT_NDV" for fr, s in subs)
+    ok = bool(subs) and all(home.which(_mods(fr), s) == "FLOAT_NDV" for fr, s in subs)
     res.inst(f"update_concatenated_field: values[isnan] = {[unparse(s) for _f, s in subs]}", nontrivial=True, ok=ok)
     if not ok:
         res.find("H5Writer", "update_concatenated_field", "float NaN not replaced by FLOAT_NDV", uc.where, "concatenated float data store raw NaN")
     for spec in ("H5Reader.fetch_values", "H5Reader.fetch_concatenated_values"):
-        fn = ctx.view(spec, consts=False)
+        fn = _frame(ctx, spec)
         found = False
         for fr in _with_private_callees(ctx, fn):
             L = Locals(fr.node)
             for _s, x, m, v in masked_stores(fr.node, L):
                 other = eq_other_side(m, L.alias_class(x))
-                if other is not None and home.which(fr.module, other) == "FLOAT_NDV" and is_nan(L.expand(v)):
+                if other is not None and home.which(_mods(fr), other) == "FLOAT_NDV" and is_nan(L.expand(v)):
                     found = True
         res.inst(f"{spec}: <array>[<array> == FLOAT_NDV] = np.nan", nontrivial=True, ok=found)
         if not found:
             res.find("H5Reader", spec.split(".")[1], "FLOAT_NDV not mapped back to NaN", fn.where, "stored gaps come back as 1.17e-38 instead of NaN")
-    fv = ctx.view("NumericData.format_values", consts=False)
+    fv = _frame(ctx, "NumericData.format_values")
     if len(fv.params) < 2:
         raise AnalysisError("NumericData.format_values: values parameter not found")
     subs = []
@@ -573,7 +732,7 @@ def rule_narrow(ctx) -> RuleResult:
         g = CFG(v.node)
         for c, tgt in _casts(v.node, L):
             cnodes = _cfg_nodes_of(g, c)
-            tests = [_literals_in(p, fn.module, v.node, L.expand(t.ast)) for t in _deciding_guards(g, cnodes)]
+            tests = [_literals_in(p, fn.module, v.node, m) for t in _deciding_guards(g, cnodes) for m in _test_meanings(ctx, v, L, t.ast)]
             gtxt = " ; ".join(unparse(t) for t in tests)
             need = []
             if "float" in tgt:
